@@ -10,7 +10,9 @@ import re
 from .. import core
 
 NAMES = ["x.mmm", "x.ms", "x.mmm.bak", "x.transpiled.mmm", ".mmm", "mmm", "x.MMM", "x.mmm~", "sp ace.mmm",
-         "é.mmm", "a.b.mmm", "x.mmm ", "y.mmm", "z.mmm"]
+         "é.mmm", "a.b.mmm", "x.mmm ", "y.mmm", "z.mmm",
+         # hidden files WITH the extension (round 7): a leading dot does not take the extension away
+         ".cache.mmm", ".a.b.mmm"]
 KINDS = ["file", "empty", "dir", "dir_with_mmm", "link_in", "link_out", "link_dangling", "link_dir"]
 FORMS = ["rel", "abs", "slash", "dot"]
 
